@@ -584,14 +584,23 @@ fn on_send(m: &mut Mdl, pre: &Mdl, ap: &AP, c: &Call, r: &mut Rules, exp_rel: &m
                         r.label("session.resumed");
                         resume_rule(m, pre, c, r, exp_rel, true, w);
                     } else {
-                        // session not present: the store is emptied and its identifiers are freed
-                        if !m.store.is_empty() || !m.ids.is_empty() {
-                            r.label("session.not-present-discards");
-                        }
-                        m.new_session();
+                        // session not present: the store is emptied and its identifiers are freed. After a clean
+                        // start that already happened when the CONNECT was processed: what has accumulated since
+                        // (a PUBLISH the client pipelined behind its CONNECT, publishes handed over early) belongs
+                        // to the new session and stays.
                         r.label("session.not-present");
-                        if c.sends().len() > 1 {
-                            r.viol("c06.e-sent-on-new-session", pre, format!("session not present but packets are transmitted: {}", c.describe()));
+                        if !m.clean_start {
+                            if !m.store.is_empty() || !m.ids.is_empty() {
+                                r.label("session.not-present-discards");
+                            }
+                            m.new_session();
+                            if c.sends().len() > 1 {
+                                r.viol("c06.e-sent-on-new-session", pre, format!("session not present but packets are transmitted: {}", c.describe()));
+                            }
+                        } else {
+                            // the new session's own packets, handed over since the CONNECT, go out now
+                            r.label("session.clean-start-early-packets");
+                            resume_rule(m, pre, c, r, exp_rel, true, w);
                         }
                     }
                 } else {
@@ -778,12 +787,18 @@ fn on_recv(m: &mut Mdl, pre: &Mdl, ap: &AP, frame: &[u8], c: &Call, r: &mut Rule
                         } else {
                             resume_rule(m, pre, c, r, exp_rel, false, w);
                         }
-                    } else {
+                    } else if !m.clean_start {
                         m.new_session();
                         r.label("session.not-present");
                         if !c.sends().is_empty() {
                             r.viol("c06.e-sent-on-new-session", pre, format!("session not present but packets are transmitted: {}", c.describe()));
                         }
+                    } else {
+                        // after a clean start the new session began with the CONNECT: what the application has
+                        // published since then is its own and goes out now
+                        r.label("session.not-present");
+                        r.label("session.clean-start-early-packets");
+                        resume_rule(m, pre, c, r, exp_rel, false, w);
                     }
                 } else {
                     // refused: the application gives the connection up
